@@ -94,7 +94,11 @@ def rule_R15_3(ctx):
 
 
 def run(ctx):
-    return [units.rule_units(ctx, "R15.1"), rule_R15_2(ctx), rule_R15_3(ctx)]
+    import c09
+    r5 = c09.rule_R09_6(ctx, "R15.5")
+    for v in r5.violations:
+        v.key = v.key.replace("R09.6", "R15.5", 1)
+    return [units.rule_units(ctx, "R15.1"), rule_R15_2(ctx), rule_R15_3(ctx), r5]
 
 
 META = {
